@@ -999,3 +999,54 @@ func (vc *VC) decVal(t Term, which string) Term {
 
 // needNeedsWriteDecl makes sure the needswrite predicate is declared in every query of this VC.
 func (vc *VC) needNeedsWriteDecl() { vc.needNeedsWrite = true }
+
+// assumeHeapClosure states the allocation invariant for array components holding references: every slice or
+// pointer stored in an element was allocated earlier (its reference is below the allocation counter), so a
+// later allocation cannot alias it.
+func (vc *VC) assumeHeapClosure(st *State, comps []string) {
+	for _, comp := range comps {
+		if strings.HasPrefix(comp, "P:") {
+			// pointed-to structs: their slice- and pointer-typed fields
+			si := vc.structs[strings.TrimPrefix(comp, "P:")]
+			if si == nil {
+				continue
+			}
+			h := vc.heapGet(st.heap, comp)
+			for i, f := range si.fields {
+				fs := vc.sortOf(si.ftypes[i])
+				var body string
+				switch fs.K {
+				case SSlice:
+					body = fmt.Sprintf("(< (sl-ref (%s (select %s |q!r|))) %s)", f, h.S, st.top.S)
+				case SRef:
+					body = fmt.Sprintf("(< (%s (select %s |q!r|)) %s)", f, h.S, st.top.S)
+				default:
+					continue
+				}
+				q := fmt.Sprintf("(forall ((|q!r| Int)) (! %s :pattern ((%s (select %s |q!r|)))))", body, f, h.S)
+				vc.assume(st, mk(q, sortBool))
+			}
+			continue
+		}
+		if !strings.HasPrefix(comp, "A:") {
+			continue
+		}
+		srt := vc.compSort[comp]
+		if srt == nil || srt.K != SArray || srt.Elem == nil || srt.Elem.K != SArray || srt.Elem.Elem == nil {
+			continue
+		}
+		h := vc.heapGet(st.heap, comp)
+		es := srt.Elem.Elem
+		var body string
+		switch es.K {
+		case SSlice:
+			body = fmt.Sprintf("(< (sl-ref (select (select %s |q!r|) |q!i|)) %s)", h.S, st.top.S)
+		case SRef:
+			body = fmt.Sprintf("(< (select (select %s |q!r|) |q!i|) %s)", h.S, st.top.S)
+		default:
+			continue
+		}
+		q := fmt.Sprintf("(forall ((|q!r| Int) (|q!i| %s)) (! %s :pattern ((select (select %s |q!r|) |q!i|))))", vc.idxSort().Name, body, h.S)
+		vc.assume(st, mk(q, sortBool))
+	}
+}
